@@ -138,6 +138,15 @@ func Un_string(v string) uint64 {
 	return x
 }
 
+// func() uint64 flow values (nil is the zero value).
+func Mk_func(x uint64) func() uint64 { return func() uint64 { return x } }
+func Un_func(v func() uint64) uint64 {
+	if v == nil {
+		return 0
+	}
+	return v()
+}
+
 // []byte flow values (8 bytes, big endian; nil is the zero value).
 func Mk_bytes(x uint64) []byte {
 	return []byte{byte(x >> 56), byte(x >> 48), byte(x >> 40), byte(x >> 32), byte(x >> 24), byte(x >> 16), byte(x >> 8), byte(x)}
